@@ -392,8 +392,12 @@ class FKF:
         _assert_numerical_iterable(q, 'Quaternion')
         _assert_numerical_iterable(acc, 'Tri-axial accelerometer sample')
         _assert_numerical_iterable(mag, 'Tri-axial magnetometer sample')
-        ax, ay, az = acc / np.linalg.norm(acc)
-        mx, my, mz = mag / np.linalg.norm(mag)
+        a_norm = np.linalg.norm(acc)
+        m_norm = np.linalg.norm(mag)
+        if not a_norm > 0 or not m_norm > 0:
+            raise ValueError("Accelerometer and magnetometer samples must be non-zero vectors.")
+        ax, ay, az = acc / a_norm
+        mx, my, mz = mag / m_norm
         qw, qx, qy, qz = q
         # Dynamic magnetometer reference vector (eq. 4)
         mD = ax*mx + ay*my + az*mz
